@@ -9,11 +9,11 @@ Local Open Scope N_scope.
 
 Ltac mstep := cbn [negb mexec meval m_store m_in ms_line ms_hdr ms_valid lc_valid lc_pc lc_parse hc_field hc_parse hc_valid is_done].
 
-Definition hd_code_of (L : limits) : hdr_code := mk_hdc (fl_code_of L) hd_parse_src hd_valid_src hd_clear_src.
+Definition hd_code_of (L : limits) : hdr_code := mk_hdc (fl_code_of L) hd_parse_src hd_valid_src hd_clear_src hd_fail_src.
 
 (* ---- rx_request ---- *)
 Definition rq_store (q : rx_request) : mstore := mk_ms (rl_store (rq_line q)) (hd_store (rq_headers q)) (b2n (rq_valid q)).
-Definition rl_code_of (L : limits) : line_code := mk_lnc (rl_src L) rl_parse_src rl_valid_src rl_clear_src.
+Definition rl_code_of (L : limits) : line_code := mk_lnc (rl_src L) rl_parse_src rl_valid_src rl_clear_src rl_fail_src.
 
 Lemma hd_valid_eval L fuel h buf :
   heval (fl_lim L) (hd_lim L) (fl_code_of L) fuel hd_valid_src (mk_hst (hd_store h) buf) = Some (hd_valid h, mk_hst (hd_store h) buf).
@@ -47,7 +47,7 @@ Qed.
 
 (* ---- rx_response ---- *)
 Definition rp_store (q : rx_response) : mstore := mk_ms (sl_store (rp_line q)) (hd_store (rp_headers q)) (b2n (rp_valid q)).
-Definition sl_code_of (L : limits) : line_code := mk_lnc (sl_src L) sl_parse_src sl_valid_src sl_clear_src.
+Definition sl_code_of (L : limits) : line_code := mk_lnc (sl_src L) sl_parse_src sl_valid_src sl_clear_src sl_fail_src.
 
 Theorem rp_parse_is_the_source L q buf fuel : hd_ok (rp_headers q) -> (length buf + 2 <= fuel)%nat ->
   mrun (sl_lim L) (fl_lim L) (hd_lim L) (sl_code_of L) (hd_code_of L) fuel rs_parse_src (rp_store q) buf =
